@@ -314,7 +314,7 @@ pub fn check(rep: &Report) {
     let tier = rep.tier;
     rep.enumerate("length-sweep", true, move |p, n| sweep(tier, p, n), run);
     rep.list("header-splits", header_splits(), run);
-    rep.random("streams", rep.tier.n(200_000, 6_000_000), 64, decode, run);
+    rep.random("streams", rep.tier.n(1_500_000, 20_000_000), 64, decode, run);
     rep.require("streams", "splits-header", 1000);
     rep.require("streams", "zero-or-undersized", 1000);
 }
